@@ -422,7 +422,9 @@ def main(args) -> int:
     if runs < max(t[2]["quick"][0] for t in CHECKS.values()):
         by_id = {s_[0]: s_ for s_ in specs}
         for i, r in enumerate(results):
-            if r["status"] == "survived":
+            if r["status"] in ("survived", "harness-error"):
+                # (harness-error in the reduced batch: violations were seen but none replayed from its own trace -- process-level
+                # state put into the code under test; the full batch has more runs that show it on their own)
                 full = int(full_env) if full_env else CHECKS[r["property"]][2]["quick"][0]
                 r2 = run_mutant(by_id[r["id"]], full, budget)
                 r2["stage"] = f"second stage: {full} runs (first stage of {runs} runs found nothing)"
